@@ -111,7 +111,12 @@ def worker(case, led):
                 lists.append(list(range(len(mpos))))
                 for lst in lists:
                     ms = [mpos[i] for i in lst]
-                    fast = np.asarray(a.expectations(ms, opt=True))
+                    try:
+                        fast = np.asarray(a.expectations(ms, opt=True))
+                    except Exception as e:
+                        led.check(False, "post:Mps.expectations:total", "Mps.expectations", f"list {lst}: raised {type(e).__name__}: {e}", key + ("list", tuple(lst)),
+                                  fields, dict(rep, list=lst))
+                        continue
                     slow = np.asarray(a.expectations(ms, opt=False))
                     dn = np.array([np.vdot(v, dens[i] @ v) for i in lst])
                     k2 = key + ("list", tuple(lst))
